@@ -3,13 +3,16 @@
 // Four exhaustively enumerated spaces, every element executed against the real goa middlewares
 // (goa.design/goa/v3/{middleware,http/middleware,grpc/middleware}):
 //
-//	A reqid    option lists x limit x inbound header/metadata values, HTTP / gRPC unary / gRPC stream
+//	A reqid    option lists x configured header name spelling x spelling the client sends x limit x
+//	           inbound header/metadata values, HTTP (net/http parser, real server) / gRPC unary / gRPC stream
 //	B trace    sampler options x discard x ID functions x inbound trace headers x EVERY answer of
 //	           the samplers' random source (seam `intn`, reached through a build overlay)
 //	C chains   every call chain of depth 1..4 over 4 hop kinds (mixed transports), per-hop
 //	           sampling 0/100, server middleware -> handler -> goa traced client -> next hop
 //	D capture  every handler behaviour (sequences over WriteHeader/Write/Flush) behind
-//	           ResponseCapture and behind the Log middleware that reports it
+//	           ResponseCapture and behind the Log middleware that reports it, over every underlying
+//	           writer of the environment menu (recorder, short writers, real net/http writer that
+//	           refuses bodies after 204/304/101 and beyond a declared Content-Length)
 //
 // Oracle (from the property statement only): see the judge* functions; anything the statement
 // is silent about (adaptive sampling decisions, intermediate percentages, discards, request-ID
@@ -127,17 +130,18 @@ func report(c *core.Ctx, fails []failure, rc replayCase, again func() []failure)
 
 func run(c *core.Ctx) {
 	installSeams()
-	c.Rule("four complete products, one state per distinct case: (A) request-ID option list x limit x inbound values x transport, " +
+	c.Rule("four complete products, one state per distinct case: (A) request-ID option list x configured header name (5 spellings of 2 base names) x spelling the client sends x limit x inbound values x transport, " +
 		"(B) trace options x inbound trace headers x transport x every answer of the sampler's random source, " +
 		"(C) every call chain of depth 1..4 over the hop-kind alphabet x per-hop sampling x inbound (state = kinds + normalised (trace,span,parent) per hop), " +
-		"(D) every sequence of response-writer operations up to the bound x observation point. One request through a goa middleware / traced client = one transition. " +
+		"(D) every sequence of response-writer operations up to the bound x observation point x underlying writer (recorder; short-writer models at every cut-off point; real net/http writer with a declared Content-Length / no-body status). One request through a goa middleware / traced client = one transition. " +
 		"Non-trivial = an inbound identifier is present (A,B), the chain has >= 2 hops (C), the handler commits a response (D).")
 	c.Assume("crypto/rand.Reader is replaced by a counter so that goa's shortID() is deterministic and injective; freshness is judged per case against inbound and earlier identifiers")
 	c.Assume("the samplers' random source is the package variable middleware.intn, replaced through an additive //go:build verif export file injected with go build -overlay (/repo untouched)")
 	c.Assume("which header is 'configured to trust' is the left-to-right fold of the option list as documented on the options: UseRequestIDOption(f) selects X-Request-Id and sets trust=f, RequestIDHeaderOption(n) selects n and sets trust=true, limit <= 0 means no limit")
 	c.Assume("'truncated to the limit' is accepted in bytes, in runes, or as the longest rune-aligned prefix within the byte limit; the gRPC middleware documents the fixed key x-request-id, so gRPC + RequestIDHeaderOption(custom) gets only the weak oracle (ID is a truncation of an inbound value or fresh)")
 	c.Assume("quick/chain hops are in-process: HTTP hops are handler.ServeHTTP on a fresh request carrying only the headers the traced client sent; gRPC hops are interceptors called directly, outgoing metadata of the client interceptor becomes the incoming metadata of the next hop (validated over real servers in the thorough tier)")
-	c.Assume("what was 'actually written' is what the underlying httptest.ResponseRecorder (or, thorough, a real net/http server and client) saw; when the handler writes nothing the status is not asserted")
+	c.Assume("what was 'actually written' is what the writer under the capture saw: the counts its Write returned (recorded by a harness spy) and what the httptest.ResponseRecorder kept / the real net/http client received; the short-writer models commit the status with the first WriteHeader(final)/Write/Flush as net/http does and answer a refused Write with (bytes taken, io.ErrShortWrite); HEAD requests (net/http accepts and discards the body) are not in the space; when the handler writes nothing the status is not asserted")
+	c.Assume("HTTP request-ID cases are raw request text read by net/http's request parser (http.ReadRequest), which is what turns the client's spelling of a header name into the key a handler sees; a sub-product goes through a real net/http server and client; gRPC metadata is built with metadata.Pairs (grpc lower-cases keys); a custom name that differs from X-Request-Id only by its spelling designates the same header (header names are case-insensitive)")
 
 	runReqID(c)
 	runSampler(c)
